@@ -329,7 +329,7 @@ def run_scenario(run: Run, scen: dict, rng: random.Random):
 
 
 def check(run: Run, tier: str, seed: int):
-    n = 400 if tier == "quick" else 5000
+    n = 800 if tier == "quick" else 5000
     for i in range(n):
         srng = random.Random(f"C14-{seed}-{i}")
         forced = ()
